@@ -25,3 +25,6 @@ run M3 details/HashBucketLimP4.h "				if (useHashCodePartGetter && hashCount - 1
 run M4 HashSet.h "					buckets->GetLogCount(), mBuckets->GetLogCount());" "					mBuckets->GetLogCount(), buckets->GetLogCount());"
 run M5 details/HashBucketOpen2N2.h "				if (probe < (size_t{1} << probeShift))" "				if (probe <= (size_t{1} << probeShift))"
 run M6 HashSet.h "		startBucket.UpdateMaxProbe(probe);" "		//startBucket.UpdateMaxProbe(probe);"
+run M7 details/HashBucketLimP4.h "				if (memPoolIndex != maxCount)
+					memPoolIndex = minMemPoolIndex;" "				if (memPoolIndex == maxCount)
+					memPoolIndex = minMemPoolIndex;"
